@@ -145,6 +145,30 @@ CLAIMS["C09"] = ("const evaluation of the time-source override with constant-edg
     "journalctl output.",
     "DESIGN.md §3 C09")
 
+# clauses added after the second round of seeded regressions (appended to the level text; (technique suffix, text))
+ROUND2 = {
+ "C02": ("", "Also: the highlighted pieces of a line partition it (consecutive sub-slices, R2.5)."),
+ "C03": ("", "Also: the year-inference walk may stop early only strictly before --dt-after (lift of C11 R11.5)."),
+ "C04": ("", "Also: capture lengths fit the conversion buffer; zone-name alternatives are exactly the zone-table keys."),
+ "C05": ("", "Also: blocks are kept on every pass over a streamed file (R5.4 on all passes); the gz/tar modification-time source is not gated on unrelated header fields (R5.6)."),
+ "C06": ("", "Also: the coordinator never waits without a timeout while a worker may still be starting, recv paths returning None are accounted, once-cell initialisation cannot lose a race, worker loops drain their readers (R6.7)."),
+ "C08": ("", "Also: the worker loop ends only at reader exhaustion (R8.6); block retention on every pass (R8.7, lift of R5.4)."),
+ "C09": ("; shared instant-preservation lint on chrono conversions", "Also: no wall-clock view of a zoned datetime is read back as UTC in the journal window conversions (R9.5); the temporary extraction of compressed journals is complete (R9.6, lift of C05)."),
+ "C10": ("; shared instant-preservation lint on chrono conversions", "Also: window/record-time conversions preserve the instant (R10.5); the temporary extraction of compressed .evtx files is complete (R10.6, lift of C05 read-loop rules)."),
+ "C11": ("; const evaluation of the lazy_static threshold initialiser", "Also: the year-change threshold evaluates to 24..25 hours (R11.4); the walk stops early only strictly before --dt-after (R11.5); mtime conversion preserves the instant (R11.6); a message re-read under another year cannot absorb a line that begins a stored message (R11.7, defect F15 repaired)."),
+ "C13": ("", "Also: returned/printed text derives from the message bytes (provenance, R13.2), padding is measured in the unit it is written in (R13.4b), message constructors are newline-terminated (R13.6), highlighted pieces partition the line (R13.7)."),
+ "C14": ("; path-sensitive (disjunctive) forward dataflow with flag correlation", "Also: a value stripped of its zone name reaches the parser only with the %Z->%z rewritten pattern on the same path (R14.6, so ambiguous names cannot be accepted by zone-less rows); no wall-clock view is read back as UTC (R14.7)."),
+ "C16": ("", "Also: every documented type word stops the right-to-left scan with its documented type (R16.6); all()-style tests over possibly empty component lists are guarded (R16.7)."),
+ "C17": ("", "Also: inventory of growable containers owned by the streaming readers (R17.3)."),
+ "C18": ("", "Also: an interrupt cannot hang the run (R18.6: repeated signal returns early, no join after an interrupt); listing on every non-error return is decided on the CFG region between creation and listing (R18.3)."),
+ "C19": ("; abstract enumeration (Option shape x ordering) of the min/max accumulator", "Also: the four message arms of the coordinator perform the same bookkeeping (R19.7); first/last printed datetime are the running minimum/maximum on every path (R19.8)."),
+ "C07": ("", "Also: record-time conversions preserve the instant (R7.7)."),
+}
+for _pid, (_t, _x) in ROUND2.items():
+    if _pid in CLAIMS:
+        _tech, _text, _ref = CLAIMS[_pid]
+        CLAIMS[_pid] = (_tech + _t, _text + " " + _x, _ref)
+
 NA_REASON = {}
 
 checks = []
